@@ -225,6 +225,8 @@ static void base_known(sc_scn_t *sc, vt_rng_t *rng)
     }
 }
 
+static int band(int nf, int which, double *f);
+
 /* returns 0, or -1 when the row names a topology this driver cannot build
  * (logged and rejected by the trace spec) */
 static int build_scenario(sc_scn_t *sc, const cfg_t *c, vt_rng_t *rng,
@@ -274,6 +276,76 @@ static int build_scenario(sc_scn_t *sc, const cfg_t *c, vt_rng_t *rng,
 	sc_double(sc, rng, 1, 2, SC_OPEN, SC_SHORT);
 	sc_double(sc, rng, 1, 2, SC_MATCH, SC_MATCH);
 	sc_line(sc, rng, 1, 2, SC_MATCH, ul, ul, SC_MATCH);
+	return 0;
+    }
+    if (strcmp(c->topo, "TRM") == 0 || strcmp(c->topo, "TRLM") == 0) {
+	/* TRL-shaped sets of three standards with two unknowns that are NOT
+	 * the two-port TRL problem: TRM has the unknown reflect on port 1
+	 * and a different, known reflect on port 2; TRLM has a line with
+	 * known non-zero reflection */
+	double complex r = rand_gamma(rng, 0.6, 1.0);
+	double la = (0.6 + 1.9 * vt_unit(rng)) * (vt_below(rng, 2) ? 1 : -1);
+	double complex l = (0.5 + 0.4 * vt_unit(rng)) *
+	    (cos(la) + I * sin(la));
+	int order = vt_below(rng, 3);
+	int ur = sc_unknown(sc, rng, r, radius, vg);
+	int ul = sc_unknown(sc, rng, l, radius, vg);
+	int trm = strcmp(c->topo, "TRM") == 0;
+	int kr = trm ? sc_scalar(sc, rand_gamma(rng, 0.6, 1.0)) : -1;
+	int km = trm ? SC_MATCH : sc_scalar(sc, rand_gamma(rng, 0.1, 0.3));
+
+	for (int k = 0; k < 3; ++k) {
+	    switch ((k + order) % 3) {
+	    case 0:
+		sc_through(sc, rng, 1, 2);
+		break;
+	    case 1:
+		if (trm && vt_below(rng, 2))
+		    sc_double(sc, rng, 1, 2, kr, ur);
+		else
+		    sc_double(sc, rng, 1, 2, ur, trm ? kr : ur);
+		break;
+	    case 2:
+		sc_line(sc, rng, 1, 2, km, ul, ul, km);
+		break;
+	    }
+	}
+	return 0;
+    }
+    if (strcmp(c->topo, "SHORT1") == 0) {
+	/* exactly one equation short of error terms + unknown parameters,
+	 * two or three unknowns, not TRL-shaped */
+	for (int i = 0; i < c->nu; ++i)
+	    u[i] = sc_unknown(sc, rng, rand_gamma(rng, 0.3, 0.9), radius, vg);
+	if (sc->P == 1) {
+	    /* 3 error terms: 2 + nu equations */
+	    sc_single(sc, rng, 1, SC_SHORT);
+	    sc_single(sc, rng, 1, SC_OPEN);
+	    for (int i = 0; i < c->nu; ++i)
+		sc_single(sc, rng, 1, u[i]);
+	} else {
+	    /* 2x2 8/10-term, 7 error terms: through 4, double reflects 2
+	     * each, single reflect 1: 8 for nu = 2, 9 for nu = 3 */
+	    sc_through(sc, rng, 1, 2);
+	    sc_double(sc, rng, 1, 2, u[0], u[0]);
+	    sc_double(sc, rng, 1, 2, u[1], u[1]);
+	    if (c->nu == 3)
+		sc_single(sc, rng, 1 + vt_below(rng, 2), u[2]);
+	}
+	return 0;
+    }
+    if (strcmp(c->topo, "PRIORV") == 0) {
+	/* PRIOR with a frequency-dependent known value on its own grid */
+	double fs[3 * SC_MAXF];
+	int n = 0, k, cp;
+
+	for (int b = 0; b < 3; ++b)
+	    n += band(sc->nf, b, &fs[n]);
+	k = sc_known_vector(sc, rng, fs, n);
+	cp = sc_corr(sc, k, pow(10.0, -1.0 - 2.0 * vt_unit(rng)));
+	sc_single(sc, rng, 1, SC_SHORT);
+	sc_single(sc, rng, 1, SC_OPEN);
+	sc_single(sc, rng, 1, cp);
 	return 0;
     }
     if (strcmp(c->topo, "FEW") == 0) {
@@ -366,6 +438,27 @@ static int build_scenario(sc_scn_t *sc, const cfg_t *c, vt_rng_t *rng,
 	}
 	return 0;
     }
+    if (strcmp(c->topo, "CORRV") == 0) {
+	/* reflects whose parameters are correlated with known, strongly
+	 * frequency-dependent vector parameters (data-sheet models) given
+	 * on their own grids */
+	double fs[3 * SC_MAXF];
+	int n = 0;
+
+	for (int b = 0; b < 3; ++b)
+	    n += band(sc->nf, b, &fs[n]);
+	for (int i = 0; i < c->nu; ++i) {
+	    int k = sc_known_vector(sc, rng, fs, n);
+
+	    u[i] = sc_corr(sc, k, pow(10.0, -1.0 - 2.0 * vt_unit(rng)));
+	    if (sc->P == 1)
+		sc_single(sc, rng, 1, u[i]);
+	    else
+		sc_double(sc, rng, 1 + i % sc->P, 1 + (i + 1) % sc->P, u[i],
+			(i & 1) ? SC_SHORT : SC_OPEN);
+	}
+	return 0;
+    }
     if (strcmp(c->topo, "CORR") == 0 && c->nu >= 2) {
 	/* the same reflect connected nu times: one unknown and nu-1
 	 * parameters correlated with it (perfect repeatability) */
@@ -409,10 +502,9 @@ static int g_timeout = 60;
  * tolerances / limit, solve, read back the parameters and apply to an
  * independent device.  Emits Setup, (LM*), Solve, Params, Apply events.
  */
-static void run_solve(sc_scn_t *sc, const cfg_t *c, int pt, int et,
-	uint64_t seed, const char *tag, solve_res_t *res)
+static void do_solve(sc_scn_t *sc, const cfg_t *c, vnacal_t *vcp, int pt,
+	int et, uint64_t seed, const char *tag, solve_res_t *res)
 {
-    vnacal_t *vcp;
     vnacal_new_t *vnp = NULL;
     vt_rng_t rng;
     double p_tol = pow(10.0, -pt), et_tol = pow(10.0, -et);
@@ -422,15 +514,6 @@ static void run_solve(sc_scn_t *sc, const cfg_t *c, int pt, int et,
     vt_seed(&rng, seed);
     vt_seed(&sc->noise_rng, seed ^ 0x5bd1e995u);
     vt_cb_reset();
-    vcp = LIB(vnacal_create(vt_errfn, NULL));
-    if (vcp == NULL) {
-	res->setup_errno = errno;
-	goto setup_done;
-    }
-    if (sc_make_params(sc, vcp) != 0) {
-	res->setup_errno = errno;
-	goto setup_done;
-    }
     vnp = LIB(vnacal_new_alloc(vcp, sc_libtype(sc->type), sc->rows, sc->cols,
 		sc->nf));
     if (vnp == NULL) {
@@ -466,8 +549,8 @@ static void run_solve(sc_scn_t *sc, const cfg_t *c, int pt, int et,
     res->setup_ok = 1;
 setup_done:
     vt_put("{\"e\":\"Setup\",\"tag\":\"%s\",\"ok\":%d,\"adds\":%d,\"nstd\":%d,"
-	    "\"err\":\"%s\",\"cbn\":%d}", tag, res->setup_ok, adds, sc->nstd,
-	    vt_errname(res->setup_errno), vt_cb.n_nonwarn);
+	    "\"err\":\"%s\",\"cbn\":%d,\"nf\":%d}", tag, res->setup_ok, adds,
+	    sc->nstd, vt_errname(res->setup_errno), vt_cb.n_nonwarn, sc->nf);
     vt_end_line();
     if (!res->setup_ok)
 	goto cleanup;
@@ -566,6 +649,80 @@ setup_done:
 cleanup:
     if (vnp != NULL)
 	LIBV(vnacal_new_free(vnp));
+}
+
+/*
+ * Frequency grids: band 0 is the scenario's own grid 1, 2, .. GHz; band 1
+ * has the same number of points at other frequencies inside it, band 2 a
+ * different number of points.  Returns the number of points.
+ */
+static int band(int nf, int which, double *f)
+{
+    const double f0 = 1.0e9, span = 1.0e9 * (nf - 1);
+    int n;
+
+    if (which == 0) {
+	for (int k = 0; k < nf; ++k)
+	    f[k] = 1.0e9 * (1.0 + k);
+	return nf;
+    }
+    if (which == 1) {
+	if (nf == 1) {
+	    f[0] = 1.3e9;
+	    return 1;
+	}
+	for (int k = 0; k < nf; ++k)
+	    f[k] = f0 + span * (0.1 + 0.8 * k / (nf - 1));
+	return nf;
+    }
+    n = nf < 3 ? nf + 1 : nf - 1;
+    if (nf == 1) {
+	f[0] = 1.2e9;
+	f[1] = 1.6e9;
+	return 2;
+    }
+    for (int k = 0; k < n; ++k)
+	f[k] = f0 + span * (0.05 + 0.9 * k / (n - 1));
+    return n;
+}
+
+/*
+ * run_solve: one vnacal_t with the scenario's parameters; solve (tag), and
+ * with resolve != 0 measure the same standards -- the same parameter
+ * handles -- again on another frequency grid (1: same number of points,
+ * 2: another number) with a second vnacal_new_t and solve that too.
+ */
+static void run_solve(sc_scn_t *sc, const cfg_t *c, int pt, int et,
+	uint64_t seed, const char *tag, solve_res_t *res, int resolve)
+{
+    vnacal_t *vcp;
+
+    memset(res, 0, sizeof(*res));
+    vt_cb_reset();
+    vcp = LIB(vnacal_create(vt_errfn, NULL));
+    if (vcp == NULL || sc_make_params(sc, vcp) != 0) {
+	res->setup_errno = errno;
+	vt_put("{\"e\":\"Setup\",\"tag\":\"%s\",\"ok\":0,\"adds\":0,"
+		"\"nstd\":%d,\"err\":\"%s\",\"cbn\":%d,\"nf\":%d}", tag, sc->nstd,
+		vt_errname(res->setup_errno), vt_cb.n_nonwarn, sc->nf);
+	vt_end_line();
+    } else {
+	do_solve(sc, c, vcp, pt, et, seed, tag, res);
+	if (resolve != 0 && res->setup_ok) {
+	    static sc_scn_t sc2;
+	    solve_res_t r2;
+	    vt_rng_t rng;
+	    double f[SC_MAXF];
+	    int n;
+
+	    sc2 = *sc;
+	    vt_seed(&rng, seed * 977 + 5);
+	    n = band(sc->nf, resolve, f);
+	    sc_retune(&sc2, &rng, n, f, 0.6);
+	    do_solve(&sc2, c, vcp, pt, et, seed + 977,
+		    resolve == 1 ? "re" : "rc", &r2);
+	}
+    }
     if (vcp != NULL) {
 	sc_delete_params(sc, vcp);
 	LIBV(vnacal_free(vcp));
@@ -610,13 +767,20 @@ static void run_case(const char *table, uint64_t seed, int row)
     vt_end_line();
     if (type < 0 || build_scenario(&sc, &c, &rng, &analytic_shape) != 0) {
 	vt_put("{\"e\":\"Setup\",\"tag\":\"main\",\"ok\":0,\"adds\":0,"
-		"\"nstd\":0,\"err\":\"OTHER\",\"cbn\":0}");
+		"\"nstd\":0,\"err\":\"OTHER\",\"cbn\":0,\"nf\":1}");
 	vt_end_line();
 	vt_put("{\"e\":\"End\",\"live\":0,\"leaked\":0}");
 	vt_end_line();
 	return;
     }
-    run_solve(&sc, &c, c.pt, c.et, seed + (uint64_t)row, "main", &res);
+    {
+	int resolve = 0;
+
+	if (strcmp(c.topo, "FEW") != 0 && strcmp(c.topo, "SHORT1") != 0)
+	    resolve = row % 3;		/* 0: none, 1: other band, 2: other count */
+	run_solve(&sc, &c, c.pt, c.et, seed + (uint64_t)row, "main", &res,
+		resolve);
+    }
 
     /* tolerance ladder on the same data (same readings: the scenario's
      * noise generator is re-seeded identically in run_solve) */
@@ -630,7 +794,7 @@ static void run_case(const char *table, uint64_t seed, int row)
 
 	    snprintf(tag, sizeof(tag), "lad%d", ladder[i]);
 	    run_solve(&sc, &c, ladder[i], ladder[i], seed + (uint64_t)row,
-		    tag, &r);
+		    tag, &r, 0);
 	    ok[i] = r.rv == 0 && r.getters_ok && r.applied && r.ap.rv == 0;
 	    pe[i] = r.perr;
 	    se[i] = r.ap.worst;
